@@ -74,3 +74,10 @@ def search(ctx):
 
 def replay(ctx, case):
     return replay_eval(ctx, "C15", case)
+
+
+MANIFEST = dict(
+    text='Proof (PARTIAL): on the circuit IR of the multi-controlled-X generators, the reversed list of per-gate inverses undoes a well-formed circuit in either order, and a circuit commutes with fixing the value of any qubit it does not mention (C15_inverse_right/left, C15_spectator). Tie: for McxVchainDirty/LinearMcx, flatten(definition.inverse()) = sinv_list(model), well-formedness of the instance, and flatten(host with the definition appended on a shuffled qubit list) = map relabel (model), compared inside Coq. Every other class, declared widths, inputs-untouched and determinism are evaluated.',
+    note="Modelled, not verified: Qiskit append/compose/inverse; all classes other than the mcx family; 'inputs untouched' and determinism are run-time checks only.",
+    technique='Coq proof (per-gate inverse and commutation lemmas lifted over lists) + IR correspondence (vm_compute) + evaluation with spectators in superposition',
+    design_ref='DESIGN.md section 4, C15')
